@@ -87,7 +87,7 @@ type waiter struct {
 
 // goid returns the runtime id of the calling goroutine (parsed from the
 // header line of its stack dump).
-func goid() uint64 {
+func goidSlow() uint64 {
 	var buf [40]byte
 	n := runtime.Stack(buf[:], false)
 	// "goroutine 123 [running]:"
